@@ -563,7 +563,10 @@ def norm_go_rec(s):
         return ("PANIC",), None
     d = parse_dump(s[3:].split(" tree=")[0])
     tree_part = s.split(" tree=", 1)[1]
-    cont = cont2 = None
+    cont = cont2 = again = None
+    if " again:" in tree_part:
+        tree_part, a = tree_part.split(" again:", 1)
+        again = {"raw": a, "dump": None if a.startswith("PANIC") else parse_dump(a)}
     if " cont:" in tree_part:
         tree_part, c = tree_part.split(" cont:", 1)
         if " cont2:" in c:
@@ -581,7 +584,7 @@ def norm_go_rec(s):
     parts = tuple((pid, tuple(sorted(bs))) for pid, kind, bs, bad in d["parts"])
     epoch = None if fresh else d["epoch"]
     info = {"fresh": fresh, "epoch": epoch, "parts": d["parts"], "rows": d["rows"], "iterrows": d["iterrows"],
-            "tree": tree, "cont": cont, "cont2": cont2}
+            "tree": tree, "cont": cont, "cont2": cont2, "again": again}
     return ("OK", epoch, parts, tuple(tree)), info
 
 
@@ -627,6 +630,15 @@ def oracle(info, raw, acked, must_cover, label):
         return "recovered batches %s are not a prefix of the acknowledged batches %s" % (sorted(gs), acked)
     if not set(must_cover) <= gs:
         return "batches %s of the last published manifest are lost (recovered %s)" % (sorted(set(must_cover) - gs), sorted(gs))
+    ag = info.get("again")
+    if ag is not None:
+        # a second start with no write in between must serve exactly what the first start served
+        if ag["dump"] is None:
+            return "a second start (no write in between) does not open: " + ag["raw"][:300]
+        p1 = sorted((pid, tuple(sorted(bs))) for pid, kind, bs, bad in info["parts"])
+        p2 = sorted((pid, tuple(sorted(bs))) for pid, kind, bs, bad in ag["dump"]["parts"])
+        if p1 != p2 or any(ag["dump"]["rows"].get(b) != ROWS for b in got):
+            return "a second start (no write in between) serves parts %s, the first start served %s" % (p2, p1)
     if info["cont"] is not None:
         c = info["cont"]
         cb = sorted(b for pid, kind, bs, bad in c["parts"] for b in bs)
@@ -1211,11 +1223,18 @@ def parse_trace_dump(s):
             "sidxdirs": sorted(int(x, 16) for x in d.get("sidxdirs", "").split(",") if x)}
 
 
-def trace_oracle(g, acked, cover):
+def trace_oracle(g, acked, cover, engine="trace"):
+    v = trace_oracle_(g, acked, cover, engine)
+    return v if v is None or engine == "trace" else v.replace("trace table:", engine + " table:", 1)
+
+
+def trace_oracle_(g, acked, cover, engine):
     if not g.startswith("OK "):
         return "trace table: recovery does not open: " + g[:300]
     body = g[3:]
-    cont = None
+    cont = again = None
+    if " again:" in body:
+        body, again = body.split(" again:", 1)
     if " cont:" in body:
         body, cont = body.split(" cont:", 1)
     dump_s, tree_s = body.split(" tree=", 1)
@@ -1254,7 +1273,7 @@ def trace_oracle(g, acked, cover):
             ["%016x" % x for x in extra], ["%016x" % x for x in core])
     if d["sidx"] not in ("-", str(len(d["sidxdirs"]))):
         return "trace table: the secondary index serves %s parts, its directory holds %s" % (d["sidx"], d["sidxdirs"])
-    missing = [x for x in core if x not in d["sidxdirs"]]
+    missing = [x for x in core if x not in d["sidxdirs"]] if engine == "trace" else []
     if missing:
         return "trace table: served core parts %s have no secondary-index part" % ["%016x" % x for x in missing]
     if not core:
@@ -1262,36 +1281,54 @@ def trace_oracle(g, acked, cover):
     roots = sorted(set(x.split("/")[0] for x in tree))
     want = set(["%016x" % x for x in core] + ["sidx"] + (["%s.snp" % ("0" * (16 - len(d["epoch"])) + d["epoch"])] if core else []))
     left = [x for x in roots if x not in want]
+    gone = [x for x in want if x != "sidx" and x not in roots]
+    if gone:
+        return "trace table: after recovery the directory lacks %s" % gone
     if left:
         return "trace table: leftovers after startup cleanup: %s" % left
+    if again is not None:
+        if again.startswith("PANIC"):
+            return "trace table: a second start (no write in between) does not open: " + again[:200]
+        a = parse_trace_dump(again)
+        if sorted(a["parts"]) != sorted(d["parts"]) or (engine == "trace" and a["sidxdirs"] != d["sidxdirs"] and core):
+            return "trace table: a second start (no write in between) serves parts %s, the first start served %s" % (
+                sorted(a["parts"]), sorted(d["parts"]))
     if cont is not None:
         if cont.startswith("PANIC"):
             return "trace table: the recovered table is not usable: " + cont[:200]
         c = parse_trace_dump(cont)
         cb = sorted(b for pid, kind, b, bad in c["parts"])
         ccore = sorted(pid for pid, kind, b, bad in c["parts"])
-        if cb != sorted(got + [99]) or c["sidxdirs"] != ccore:
+        if cb != sorted(got + [99]) or (engine == "trace" and c["sidxdirs"] != ccore):
             return "trace table: after one more batch, a flush and a restart it serves %s (index parts %s), expected %s" % (
                 cb, c["sidxdirs"], sorted(got + [99]))
     return None
 
 
 def trace_table_stream(ctx, R, tier):
+    engine_stream(ctx, R, tier, "trace")
+
+
+def stream_table_stream(ctx, R, tier):
+    engine_stream(ctx, R, tier, "stream")
+
+
+def engine_stream(ctx, R, tier, engine):
     hists = TRACE_HISTORIES + (TRACE_HISTORIES_THOROUGH if tier != "quick" else [])
     nstates = 0
     for hi, ops in enumerate(hists):
-        root = os.path.join(ctx.scratch, "tr%d" % hi)
+        root = os.path.join(ctx.scratch, "%s%d" % (engine, hi))
         os.makedirs(root)
         tr = root + ".trace"
         p = subprocess.run(["strace", "-f", "-y", "-s", "1000000", "-xx", "-o", tr, "-e", "trace=" + STRACE_CALLS,
-                            ctx.go, "trrun", root, "%x" % FRESH] + ops, stdout=subprocess.PIPE, stderr=subprocess.PIPE,
+                            ctx.go, "engrun", engine, root, "%x" % FRESH] + ops, stdout=subprocess.PIPE, stderr=subprocess.PIPE,
                            text=True, env=vlib.goenv(), timeout=300)
         out = [l for l in p.stdout.split("\n") if l and not l.startswith("{")]
         ev = parse_strace(tr, root)
         os.unlink(tr)
         shutil.rmtree(root, ignore_errors=True)
         if p.returncode != 0 or len(out) != len(ops) + 1:
-            R.oblige("trace-table stream: history %s runs" % " ".join(ops), False, (p.stderr or "")[-300:])
+            R.oblige("%s-table stream: history %s runs" % (engine, " ".join(ops)), False, (p.stderr or "")[-300:])
             continue
         cov = []
         for l in out[1:]:
@@ -1325,20 +1362,20 @@ def trace_table_stream(ctx, R, tier):
         seen, todo, glines = set(), [], []
         for ns, data, cut, acked, cover in states:
             key = (tuple(sorted((p_, v if v == "D" else bytes(data[v])) for p_, v in ns.items())), tuple(acked), tuple(cover))
-            R.count("trace-table-states")
+            R.count(engine + "-table-states")
             if key in seen or not ns:
                 continue
             seen.add(key)
-            d = os.path.join(ctx.scratch, "trs%d_%d" % (hi, len(todo)))
+            d = os.path.join(ctx.scratch, "%ss%d_%d" % (engine, hi, len(todo)))
             materialise(d, ns, data)
             todo.append((d, ns, data, cut, acked, cover))
-            glines.append("trrec %s%s" % (d, " cont" if len(todo) % 5 == 0 else ""))
+            glines.append("engrec %s %s%s" % (engine, d, " cont" if len(todo) % 5 == 0 else (" again" if len(todo) % 3 == 1 else "")))
         for (d, ns, data, cut, acked, cover), g in zip(todo, ctx.go_lines(glines)):
             shutil.rmtree(d, ignore_errors=True)
             R.evaluations += 1
             nstates += 1
-            R.nontrivial.add("trace %s cut %d" % (" ".join(ops), cut))
-            v = trace_oracle(g, acked, cover)
+            R.nontrivial.add("%s %s cut %d" % (engine, " ".join(ops), cut))
+            v = trace_oracle(g, acked, cover, engine)
             if v is not None:
                 cls = re.sub(r"[^a-z ]", "", v.lower())[:48].strip()
                 R.count("oracle:" + cls)
@@ -1346,10 +1383,10 @@ def trace_table_stream(ctx, R, tier):
                            re.sub(r"[^a-z ]", "", x["detail"].lower())[:48].strip() == cls)
                 if same < 2:
                     files = {q: (None if val == "D" else bytes(data[val]).hex()) for q, val in ns.items()}
-                    R.violation("oracle", v, {"stream": "trace-table", "history": ops, "mode": "kill", "cut": cut,
+                    R.violation("oracle", v, {"stream": engine + "-table", "history": ops, "mode": "kill", "cut": cut,
                                               "acked": acked, "must_cover": cover, "tree": files, "impl_output": g,
-                                              "how": "materialise `tree` below <d>, then `echo trrec <d> | drv_c04` (real trace initTSTable)"})
-    R.count("trace-table-recoveries", nstates)
+                                              "how": "materialise `tree` below <d>, then `echo engrec %s <d> | drv_c04` (real %s initTSTable)" % (engine, engine)})
+    R.count(engine + "-table-recoveries", nstates)
 
 
 # ----------------------------------------------------------------------------------------------------------
@@ -1411,7 +1448,7 @@ def eval_states(ctx, h, states, label, cont_every=7):
         stale_tmp = any(re.match(r"s\d+\.tmp=", x) for x in s["entries"])
         if stale_tmp:
             R.count("two-crash-continuations-over-stale-tmp")
-        glines.append("rec %s%s" % (d, " cont" if (j % cont_every == 0 or stale_tmp) else ""))
+        glines.append("rec %s%s" % (d, " cont" if (j % cont_every == 0 or stale_tmp) else (" again" if j % 3 == 1 else "")))
     gout = ctx.go_lines(glines)
     bad = 0
     for s, g in zip(todo, gout):
@@ -1738,7 +1775,8 @@ def main(tier):
                 shutil.rmtree(c.scratch, ignore_errors=True)
         with ThreadPoolExecutor(max_workers=10) as ex:
             futs = [ex.submit(extra_stream, segment_stream, "segstream"),
-                    ex.submit(extra_stream, trace_table_stream, "tracestream")]
+                    ex.submit(extra_stream, trace_table_stream, "tracestream"),
+                    ex.submit(extra_stream, stream_table_stream, "streamstream")]
             list(ex.map(one, [(i, o, s) for i, (o, s) in enumerate(zip(hists, seeds))]))
             for f in futs:
                 f.result()
